@@ -132,6 +132,8 @@ def gen(rng, tier):
         cases.append(random_acc(rng, rng.choice([1, 2, 3, 4]), True, rng.randint(4, 14)))
     # accept() failing with EMFILE for 3.7 s (7 retry rounds) while a client knocks: afterwards the slot count is whole
     cases.append("acc 2 c f7 e0 c c")
+    # the same while the global logger's queue is full: logging the failure must not cost the accept loop
+    cases += ["acc 2 c G1 e0 c c", "acc 1 G2 c"]
     if tier == "thorough":
         cases += ["acc 1 f4 c", "acc 1 f12 c", "acc 2 f16 c"]
         # accept() failing with EMFILE while a client knocks (descriptor limit lowered for 0.7 s)
